@@ -109,6 +109,15 @@ def run(pid, tier, seed):
                    "(the property's premise); other loadable files are checked for totality only"]
     # ---- 1. the property on the specification + spec -> impl replay (small worlds)
     sw = smallworld.run(pid, tier, seed, verdict)
+    if pid == "C14":
+        # the other hidden state: the name cache (a second load returns the first value without asking the data
+        # source again; a failed name keeps failing) - 2-thread x 2-call behaviours of the Loader model replayed
+        from checks import loader
+        lst, lev, _ = loader.explore(pid, tier, seed, verdict, full=False)
+        sw["name_cache_replay"] = {k: v for k, v in lst.items() if not isinstance(v, dict)}
+        sw["states"] = sw.get("states", 0) + lst.get("states", 0)
+        sw["transitions"] = sw.get("transitions", 0) + lst.get("transitions", 0)
+        sw["replayed"] = sw.get("replayed", 0) + lst.get("replayed_behaviours", 0)
     # ---- 2. impl -> spec on real-range zones
     try:
         exe = V.build_driver("drv_zone", "asan")
